@@ -20,6 +20,10 @@ pub fn exec(tok: &[&str]) -> String {
         "felt_value" => vh::felt_value(tok[1].parse().unwrap()).to_string(),
         "felt_balanced" => vh::felt_balanced(tok[1].parse().unwrap()).to_string(),
         "felt_add" => vh::felt_add(tok[1].parse().unwrap(), tok[2].parse().unwrap()).to_string(),
+        "felt_add_assign" => vh::felt_assign(b'+', tok[1].parse().unwrap(), tok[2].parse().unwrap()).to_string(),
+        "felt_sub_assign" => vh::felt_assign(b'-', tok[1].parse().unwrap(), tok[2].parse().unwrap()).to_string(),
+        "felt_mul_assign" => vh::felt_assign(b'*', tok[1].parse().unwrap(), tok[2].parse().unwrap()).to_string(),
+        "felt_from_usize" => vh::felt_from_usize(tok[1].parse().unwrap()).to_string(),
         "felt_sub" => vh::felt_sub(tok[1].parse().unwrap(), tok[2].parse().unwrap()).to_string(),
         "felt_neg" => vh::felt_neg(tok[1].parse().unwrap()).to_string(),
         "felt_mul" => vh::felt_mul(tok[1].parse().unwrap(), tok[2].parse().unwrap()).to_string(),
